@@ -556,7 +556,9 @@ def _node_tags(text):
         elif isinstance(n, yaml.MappingNode):
             for k, v in n.value: walk(k); walk(v)
     try:
+        keep = []
         for n in yaml.compose_all(text, Loader=yaml.SafeLoader):
+            keep.append(n)                                   # ids in `seen` are unique only while the nodes are alive
             if n is not None: walk(n)
     except Exception: return None
     return tags
@@ -736,6 +738,8 @@ def _same_order(a, b, memo):
     if isinstance(a, dict) and isinstance(b, dict):
         ka, kb = list(a), list(b)
         if len(ka) != len(kb): return None                                   # not a faithful round trip: other clauses
+        kr = lambda k: (type(k).__name__, repr(k))
+        if sorted(map(kr, ka)) != sorted(map(kr, kb)): return None                # some key did not survive the round trip: not an order matter (C02 / other clauses)
         for x, y in zip(ka, kb):
             if not (type(x) is type(y) and (x == y or (x != x and y != y))): return 'insertion order %r, document order %r' % (ka[:8], kb[:8])
         for x, y in zip(ka, kb):
